@@ -307,6 +307,20 @@ def generated_models():
     # an input decision that is also required by the output decision, and a service whose input decision requires its output decision
     model('service-input-requires-output', dec_svc(0, [], 'd1 + 1', extra=[1]) + leaf + svc(0, [1], [], [0]), ['d0', 's0'])
     model('service-output-requires-input', dec_svc(0, [], 'd1 + 1', extra=[1]) + leaf + svc(0, [0], [], [1]), ['d0', 's0'])
+    # two elements with one id (the XML parser accepts them): the requirement graph must contain the requirements of BOTH copies, whichever
+    # copy the evaluators resolve the id to (seeded change C12_c: only the last copy's requirements were checked)
+    for cyc in ('first', 'second', 'both', 'none'):
+        for kind in ('bkm', 'decision'):
+            a, b = ([0] if cyc in ('first', 'both') else []), ([0] if cyc in ('second', 'both') else [])
+            if kind == 'bkm':
+                body = gen_bkm(0, a, 'x' + ''.join(' + b%d(x)' % j for j in a)) + gen_bkm(0, b, 'x' + ''.join(' + b%d(x)' % j for j in b))
+                body += gen_decision(1, [('b', 0), ('i', 0)], 'b0(i0)')
+                model('duplicate-id-bkm-cycle-in-%s' % cyc, body, ['d1', 'b0'])
+            else:
+                body = gen_decision(0, [('d', j) for j in a] + [('i', 0)], 'i0' + ''.join(' + d%d' % j for j in a))
+                body += gen_decision(0, [('d', j) for j in b] + [('i', 0)], 'i0' + ''.join(' + d%d' % j for j in b))
+                body += gen_decision(1, [('d', 0), ('i', 0)], 'd0 + i0')
+                model('duplicate-id-decision-cycle-in-%s' % cyc, body, ['d1', 'd0'])
     # tables: clauses vs entries
     for n_in in (0, 1, 2):
         for n_out in (0, 1, 2):
